@@ -24,9 +24,9 @@ theorem mask_of_done (i : Inst) (s : State) (hd : env.done i s = true) (a : Nat)
     env.mask i s a = decide (a = 0) := by
   have hall := all_visited_of_done i s hd
   by_cases h0 : a = 0
-  · subst h0; simp [env, mask, anyCust_false_of_done i s hd]
+  · subst h0; simp [env, mask_def, anyCust_false_of_done i s hd]
   · simp only [env] at ha
-    simp [env, mask, h0, canVisit, hall a ha]
+    simp [env, mask_def, h0, canVisit, hall a ha]
 
 /-- **C04 (MTVRP), padding is a no-op.** -/
 theorem pad_noop (i : Inst) (h00 : i.openR = true ∨ i.D 0 0 = 0) (s : State) (as : List Nat)
@@ -46,9 +46,9 @@ theorem pad_noop (i : Inst) (h00 : i.openR = true ∨ i.D 0 0 = 0) (s : State) (
   · subst ha0
     have hc : charged i 0 0 = 0 := by
       rcases h00 with h | h
-      · simp [charged, h]
-      · simp only [charged]; split <;> simp [h]
-    simp only [reward, rollLen_eq_closedLen, closedLen]
+      · simp [charged_def, h]
+      · simp only [charged_def]; split <;> simp [h]
+    simp only [reward_def, rollLen_eq_closedLen, closedLen]
     have h1 : 0 :: (as ++ [0]) ++ [0] = (0 :: (as ++ [0])) ++ [0] := by simp
     rw [h1, pathLen_append_singleton]
     have h2 : (0 :: (as ++ [0])).getLast (by simp) = 0 := by
